@@ -212,6 +212,6 @@ def view(case):
 
 def campaigns(tier: str) -> List[Campaign]:
     return [Campaign("sequences", c16_case(), check, quick=480, thorough=11200, quick_shards=8,
-                     required_classes={"several_patterns": 0.07, "repeated_pattern": 0.2, "substring_matches_several_names": 0.03,
+                     required_classes={"unrounded_fractional_times": 0.05, "several_patterns": 0.07, "repeated_pattern": 0.2, "substring_matches_several_names": 0.03,
                                        "no_pattern": 0.02, "rank_0_after_another_rank": 0.015, "operator_name_with_regex_metacharacters": 0.02, "python_function_frames": 0.1},
                      sample_view=view)]
